@@ -190,7 +190,7 @@ class BridgeRun:
         self.scn = scn
         self.ev: list[dict] = []
         self.net = vnet.VNet()
-        self.loop = vnet.VLoop(self.net)
+        self.loop = vnet.VLoop(self.net, vtime=True)      # virtual clock: quiet minutes or hours between datagrams cost no real time
         self.cur = None            # datagram being processed
         self.got: list[dict] = []
         self.raise_next = False
@@ -333,6 +333,11 @@ class BridgeRun:
                 except Exception as x:  # noqa: BLE001
                     self.log(ev="Stop", br=br, how=do, raised=True, exc=type(x).__name__)
             elif do == "cycle":
+                await vnet.settle(3)
+                self.log(ev="Cycle")
+            elif do == "wait":
+                # nothing arrives for a while (milliseconds ... hours on the loop's virtual clock): whatever timer anybody set fires now
+                await asyncio.sleep(st["s"])
                 await vnet.settle(3)
                 self.log(ev="Cycle")
             elif do == "neterr":
